@@ -101,6 +101,91 @@ theorem sumDims_eq {dims : List Dim} (hv : ValidDims dims) :
 example : ValidDims [⟨0, 5, 9, 0⟩, ⟨1, 1, 1, 3⟩] := by
   intro d hd; simp at hd; rcases hd with rfl | rfl <;> simp [Dim.Valid]
 
+theorem mkDim_some_of_le {mn mx : Nat} (w pr : Option Nat) (h : mn ≤ mx) :
+    ∃ d, mkDim (some mn) (some mx) w pr = some d ∧ d.min = mn ∧ d.max = mx ∧
+      (pr.getD mn ≤ mx → mn ≤ pr.getD mn → d.pref = pr.getD mn) := by
+  unfold mkDim
+  simp only [Option.getD_some]
+  rw [if_neg (by omega)]
+  refine ⟨_, rfl, rfl, rfl, ?_⟩
+  intro h1 h2
+  simp only
+  split_ifs <;> omega
+
+theorem maxDimsNZ_some (nz : List Dim) :
+    ∃ d, maxDimsNZ nz = some d ∧ d.Valid ∧ d.min = maxOf (nz.map (·.min)) ∧
+      (d.pref = maxOf (nz.map (·.pref)) ∨ d.pref = d.min) := by
+  unfold maxDimsNZ
+  simp only
+  generalize maxOf (nz.map (·.min)) = mn
+  generalize maxOf (nz.map (·.pref)) = pr
+  generalize minOf (nz.map (·.max)) = m0
+  have hle : mn ≤ (if mn > Nat.max m0 pr then mn else Nat.max m0 pr) := by split_ifs <;> omega
+  obtain ⟨d, h1, h2, h3, h4⟩ := mkDim_some_of_le none (some pr) hle
+  refine ⟨d, h1, mkDim_valid h1, h2, ?_⟩
+  simp only [Option.getD_some] at h4
+  by_cases hp : mn ≤ pr
+  · left
+    apply h4 _ hp
+    have : pr ≤ Nat.max m0 pr := Nat.le_max_right _ _
+    split_ifs <;> omega
+  · right
+    -- preferred below the highest minimum: clamped up to it
+    unfold mkDim at h1
+    simp only [Option.getD_some] at h1
+    split_ifs at h1 <;> simp only [Option.some.injEq] at h1 <;> subst h1 <;> simp only <;> omega
+
+/-- `max_layout_dimensions` of valid dimensions never raises and yields a valid dimension
+    (used for the cross axis: `HSplit.preferred_width`, `VSplit.preferred_height`). -/
+theorem maxDims_valid {ds : List Dim} (hv : ValidDims ds) :
+    ∃ d, maxDims ds = some d ∧ d.Valid := by
+  unfold maxDims
+  cases ds with
+  | nil =>
+    refine ⟨⟨0, 0, 0, Gen.C12.defaultWeight⟩, by decide, by simp [Dim.Valid]⟩
+  | cons d0 rest =>
+    simp only
+    by_cases hz : (d0 :: rest).all Dim.isZero = true
+    · rw [if_pos hz]; exact ⟨d0, rfl, hv d0 List.mem_cons_self⟩
+    · rw [if_neg hz]
+      by_cases he : (List.filter (fun d => !d.isZero) (d0 :: rest)).isEmpty = true
+      · rw [if_pos he]
+        rcases h : mkDim none none none none with _ | d
+        · exact absurd h (by decide)
+        · exact ⟨d, rfl, mkDim_valid h⟩
+      · rw [if_neg he]
+        obtain ⟨d, h1, h2, _⟩ := maxDimsNZ_some (List.filter (fun d => !d.isZero) (d0 :: rest))
+        exact ⟨d, h1, h2⟩
+
+/-- the maximum dimension has at least the minimum of every non-empty child -/
+theorem maxDims_min_ge {ds : List Dim} {d r : Dim} (hd : d ∈ ds) (hnz : d.isZero = false)
+    (h : maxDims ds = some r) : d.min ≤ r.min := by
+  unfold maxDims at h
+  cases ds with
+  | nil => simp at hd
+  | cons d0 rest =>
+    simp only at h
+    have hmem : d ∈ List.filter (fun d => !d.isZero) (d0 :: rest) := by
+      rw [List.mem_filter]; exact ⟨hd, by simp [hnz]⟩
+    by_cases hz : (d0 :: rest).all Dim.isZero = true
+    · rw [List.all_eq_true] at hz
+      have := hz d hd
+      rw [hnz] at this; cases this
+    · rw [if_neg hz] at h
+      by_cases he : (List.filter (fun d => !d.isZero) (d0 :: rest)).isEmpty = true
+      · rw [List.isEmpty_iff] at he
+        rw [he] at hmem; simp at hmem
+      · rw [if_neg he] at h
+        obtain ⟨d', h1, _, h3, _⟩ := maxDimsNZ_some (List.filter (fun d => !d.isZero) (d0 :: rest))
+        rw [h1] at h
+        simp only [Option.some.injEq] at h
+        subst h
+        rw [h3]
+        exact le_maxOf (List.mem_map_of_mem hmem)
+
+example : maxDims [⟨1, 2, 5, 1⟩, ⟨3, 4, 9, 2⟩, ⟨0, 0, 0, 1⟩] = some ⟨3, 4, 5, 1⟩ := by decide
+example : maxDims [⟨0, 0, 7, 3⟩, ⟨0, 2, 0, 1⟩] = some ⟨0, 0, 7, 3⟩ := by decide
+
 /-! ### list bookkeeping -/
 
 theorem map_getD_lt {α : Type} (f : α → Nat) (l : List α) {i : Nat} (h : i < l.length) :
